@@ -785,3 +785,288 @@ Proof.
       * destruct (negb (send_allowed (s_perms s) stream)); [apply srel_refl|]. destruct (aget (s_pubs s) stream); apply srel_refl.
       * destruct (sub_get s _ stream); apply srel_refl.
 Qed.
+
+(* ------------------------------------------------------------------ the functions that create, attach, enter *)
+(* the invariant reads only the session table, the connection table and the virtual table *)
+Lemma ri_ext xs h h' :
+  h_sessions h' = h_sessions h -> h_conns h' = h_conns h -> h_vtable h' = h_vtable h -> RIg xs h -> RIg xs h'.
+Proof.
+  intros A B C I. eapply ri_weaken; [|apply (ri_srel xs none1 h h'); [now apply srel_nosess|exact I]].
+  intros x [Hx|[]]. exact Hx.
+Qed.
+
+(* a connection entry without a session is (re)written *)
+Lemma srel_set_conn xs h c cn1 :
+  (forall cn0, aget (h_conns h) c = Some cn0 -> c_sess cn0 = None) ->
+  srel xs h (set_conns h (aset (h_conns h) c cn1)).
+Proof.
+  intros Hn. constructor; auto.
+  - intros x s' H. exists s'. repeat split; auto.
+  - intros C x s' c' Hx Hc'. destruct (C x s' c' Hx Hc') as (cn & Hcn & Hl). unfold linked.
+    cbn [h_conns set_conns]. rewrite aget_aset. destruct (N.eqb_spec c' c) as [->|Hne]; [|eauto].
+    rewrite (Hn cn Hcn) in Hl. discriminate.
+Qed.
+
+(* a session's room changes (to a room of its backend) *)
+Lemma ri_put xs h sid s s1 :
+  RIg xs h -> get_sess h sid = Some s -> s_kind s1 = s_kind s -> s_backend s1 = s_backend s -> s_conn s1 = s_conn s ->
+  (forall k, s_room s1 = Some k -> fst k = s_backend s) -> RIg xs (put_sess h sid s1).
+Proof.
+  intros I Hs Hk Hb Hc Hm. constructor.
+  - unfold skeys, put_sess. cbn [h_sessions set_sessions]. rewrite (keys_aset_same _ sid s1 s Hs). apply I.
+  - rewrite get_put. destruct (N.eqb_spec 0 sid) as [<-|]; [|apply I]. rewrite (ri_zero _ _ I) in Hs. discriminate.
+  - intros x sx c. rewrite get_put. destruct (N.eqb_spec x sid) as [->|Hne]; intros H Hcc.
+    + injection H as <-. apply (ri_conn _ _ I sid s c Hs). congruence.
+    + exact (ri_conn _ _ I x sx c H Hcc).
+  - intros x sx c. rewrite get_put. destruct (N.eqb_spec x sid) as [->|Hne]; intros H Hcc.
+    + injection H as <-. rewrite Hk. apply (ri_novirt _ _ I sid s c Hs). congruence.
+    + exact (ri_novirt _ _ I x sx c H Hcc).
+  - intros x sx p v. rewrite get_put. destruct (N.eqb_spec x sid) as [->|Hne]; intros H Hkk.
+    + injection H as <-. apply (ri_vt _ _ I sid s p v Hs). congruence.
+    + exact (ri_vt _ _ I x sx p v H Hkk).
+  - apply I.
+  - intros x sx k. rewrite get_put. destruct (N.eqb_spec x sid) as [->|Hne]; intros H Hkk.
+    + injection H as <-. rewrite Hb. now apply Hm.
+    + exact (ri_room _ _ I x sx k H Hkk).
+  - intros x sx p v ps. rewrite !get_put. intros Hx Hkk Hp.
+    assert (Hx0 : exists sx0, get_sess h x = Some sx0 /\ s_kind sx0 = s_kind sx /\ s_backend sx0 = s_backend sx).
+    { destruct (N.eqb_spec x sid) as [->|]; [injection Hx as <-; exists s; auto|exists sx; auto]. }
+    assert (Hp0 : exists ps0, get_sess h p = Some ps0 /\ s_backend ps0 = s_backend ps).
+    { destruct (N.eqb_spec p sid) as [->|]; [injection Hp as <-; exists s; auto|exists ps; auto]. }
+    destruct Hx0 as (sx0 & A & B & C). destruct Hp0 as (ps0 & D & E).
+    rewrite <- E, <- C. apply (ri_parent _ _ I x sx0 p v ps0 A); congruence.
+Qed.
+
+(* a new session, not virtual, in no room, on a connection entry that gets its id *)
+Lemma ri_attach h h' sid ns c :
+  RI h -> WF h -> get_sess h sid = None -> sid <> 0 ->
+  (forall x s, get_sess h x = Some s -> s_conn s <> Some c) ->
+  s_conn ns = Some c -> is_virtual (s_kind ns) = false -> s_room ns = None ->
+  h_sessions h' = aset (h_sessions h) sid ns -> h_vtable h' = h_vtable h ->
+  linked h' c sid -> (forall x, x <> c -> aget (h_conns h') x = aget (h_conns h) x) ->
+  RI h'.
+Proof.
+  intros I W Hf H0 Hfree Hc Hv Hr Hse Hvt Hl Hco.
+  assert (Hget : forall x, get_sess h' x = if N.eqb x sid then Some ns else get_sess h x).
+  { intros x. unfold get_sess. rewrite Hse. apply aget_aset. }
+  constructor.
+  - unfold skeys. rewrite Hse. apply nodup_keys_aset, I.
+  - rewrite Hget. destruct (N.eqb_spec 0 sid); [congruence|apply I].
+  - intros x sx c0. rewrite Hget. destruct (N.eqb_spec x sid) as [->|Hne]; intros H Hcc.
+    + injection H as <-. rewrite Hc in Hcc. injection Hcc as <-. exact Hl.
+    + destruct (ri_conn _ _ I x sx c0 H Hcc) as (cn & Hcn & Hli). unfold linked. rewrite Hco; [eauto|].
+      intros ->. now apply (Hfree x sx H).
+  - intros x sx c0. rewrite Hget. destruct (N.eqb_spec x sid) as [->|Hne]; intros H Hcc.
+    + injection H as <-. exact Hv.
+    + exact (ri_novirt _ _ I x sx c0 H Hcc).
+  - intros x sx p v. rewrite Hget, Hvt. destruct (N.eqb_spec x sid) as [->|Hne]; intros H Hkk.
+    + injection H as <-. rewrite Hkk in Hv. discriminate.
+    + exact (ri_vt _ _ I x sx p v H Hkk).
+  - unfold vkeys. rewrite Hvt. apply I.
+  - intros x sx k. rewrite Hget. destruct (N.eqb_spec x sid) as [->|Hne]; intros H Hkk.
+    + injection H as <-. congruence.
+    + exact (ri_room _ _ I x sx k H Hkk).
+  - intros x sx p v ps. rewrite !Hget. destruct (N.eqb_spec x sid) as [->|Hne]; intros Hx Hkk.
+    + injection Hx as <-. rewrite Hkk in Hv. discriminate.
+    + destruct (N.eqb_spec p sid) as [->|Hnp]; [|exact (ri_parent _ _ I x sx p v ps Hx Hkk)].
+      destruct (wf_parent _ _ h W x sx sid v Hx Hkk) as [[]|(ps0 & Hps0 & _)]. congruence.
+Qed.
+
+Lemma next_id_nonzero h : next_id h <> 0.
+Proof. unfold next_id. lia. Qed.
+
+Lemma conn_free h c cn0 : CB h -> aget (h_conns h) c = Some cn0 -> c_sess cn0 = None ->
+  forall x s, get_sess h x = Some s -> s_conn s <> Some c.
+Proof.
+  intros C Hc Hn x s Hs E. destruct (C x s c Hs E) as (cn & Hcn & Hl). rewrite Hc in Hcn. injection Hcn as <-. congruence.
+Qed.
+
+Lemma ri_register h c cn b k u cn0 :
+  RI h -> WF h -> is_virtual k = false -> aget (h_conns h) c = Some cn0 -> c_sess cn0 = None ->
+  RI (fst (register h c cn b k u)).
+Proof.
+  intros I W Hk Hc Hn. unfold register. cbv zeta.
+  match goal with |- RI (fst (if ?X then _ else _)) => destruct X end.
+  - cbn [fst]. apply ri_srel0 with h; [|exact I]. eapply srel_trans with (set_nextsid h (next_id h)); [srel_ns|].
+    apply srel_set_conn. cbn [h_conns set_nextsid]. intros cn1 H1. congruence.
+  - cbn [fst].
+    apply (ri_attach h _ (next_id h) (new_session b k u c) c); auto.
+    + exact (next_id_fresh h).
+    + apply next_id_nonzero.
+    + eapply conn_free; eauto. apply I.
+    + destruct (negb (is_internal k) && negb (N.eqb (limit_of h b) 0)); destruct (N.eqb u 0 && negb (is_internal k));
+        try reflexivity; destruct k as [|f d|]; try reflexivity; destruct d; reflexivity.
+    + destruct (negb (is_internal k) && negb (N.eqb (limit_of h b) 0)); destruct (N.eqb u 0 && negb (is_internal k));
+        try reflexivity; destruct k as [|f d|]; try reflexivity; destruct d; reflexivity.
+    + exists (mkconn (c_addr cn) (Some (next_id h)) false). split; [|reflexivity].
+      destruct (negb (is_internal k) && negb (N.eqb (limit_of h b) 0)); destruct (N.eqb u 0 && negb (is_internal k));
+        try apply aget_aset_same; destruct k as [|f d|]; try apply aget_aset_same; destruct d; apply aget_aset_same.
+    + intros x Hx.
+      destruct (negb (is_internal k) && negb (N.eqb (limit_of h b) 0)); destruct (N.eqb u 0 && negb (is_internal k));
+        try (apply aget_aset_other; exact Hx); destruct k as [|f d|]; try (apply aget_aset_other; exact Hx); destruct d; apply aget_aset_other; exact Hx.
+Qed.
+
+(* a session is taken over by another connection *)
+Lemma ri_reattach h h' n s s1 c :
+  RI h -> get_sess h n = Some s -> is_virtual (s_kind s) = false ->
+  (forall x sx, get_sess h x = Some sx -> s_conn sx <> Some c) ->
+  s_kind s1 = s_kind s -> s_backend s1 = s_backend s -> s_room s1 = s_room s -> s_conn s1 = Some c ->
+  h_sessions h' = aset (h_sessions h) n s1 -> h_vtable h' = h_vtable h ->
+  linked h' c n -> (forall x, x <> c -> s_conn s <> Some x -> aget (h_conns h') x = aget (h_conns h) x) ->
+  RI h'.
+Proof.
+  intros I Hs Hv Hfree Hk Hb Hr Hc Hse Hvt Hl Hco.
+  assert (Hget : forall x, get_sess h' x = if N.eqb x n then Some s1 else get_sess h x).
+  { intros x. unfold get_sess. rewrite Hse. apply aget_aset. }
+  constructor.
+  - unfold skeys. rewrite Hse. apply nodup_keys_aset, I.
+  - rewrite Hget. destruct (N.eqb_spec 0 n) as [<-|]; [|apply I]. rewrite (ri_zero _ _ I) in Hs. discriminate.
+  - intros x sx c0. rewrite Hget. destruct (N.eqb_spec x n) as [->|Hne]; intros H Hcc.
+    + injection H as <-. rewrite Hc in Hcc. injection Hcc as <-. exact Hl.
+    + destruct (ri_conn _ _ I x sx c0 H Hcc) as (cn & Hcn & Hli). unfold linked. rewrite Hco; [eauto| |].
+      * intros ->. now apply (Hfree x sx H).
+      * intros E. destruct (ri_conn _ _ I n s c0 Hs E) as (cn' & Hcn' & Hli'). rewrite Hcn in Hcn'. injection Hcn' as <-. congruence.
+  - intros x sx c0. rewrite Hget. destruct (N.eqb_spec x n) as [->|Hne]; intros H Hcc.
+    + injection H as <-. now rewrite Hk.
+    + exact (ri_novirt _ _ I x sx c0 H Hcc).
+  - intros x sx p v. rewrite Hget, Hvt. destruct (N.eqb_spec x n) as [->|Hne]; intros H Hkk.
+    + injection H as <-. apply (ri_vt _ _ I n s p v Hs). congruence.
+    + exact (ri_vt _ _ I x sx p v H Hkk).
+  - unfold vkeys. rewrite Hvt. apply I.
+  - intros x sx k. rewrite Hget. destruct (N.eqb_spec x n) as [->|Hne]; intros H Hkk.
+    + injection H as <-. rewrite Hb. apply (ri_room _ _ I n s k Hs). congruence.
+    + exact (ri_room _ _ I x sx k H Hkk).
+  - intros x sx p v ps. rewrite !Hget. intros Hx Hkk Hp.
+    assert (Hx0 : exists sx0, get_sess h x = Some sx0 /\ s_kind sx0 = s_kind sx /\ s_backend sx0 = s_backend sx).
+    { destruct (N.eqb_spec x n) as [->|]; [injection Hx as <-; exists s; auto|exists sx; auto]. }
+    assert (Hp0 : exists ps0, get_sess h p = Some ps0 /\ s_backend ps0 = s_backend ps).
+    { destruct (N.eqb_spec p n) as [->|]; [injection Hp as <-; exists s; auto|exists ps; auto]. }
+    destruct Hx0 as (sx0 & A & B & C). destruct Hp0 as (ps0 & D & E).
+    rewrite <- E, <- C. apply (ri_parent _ _ I x sx0 p v ps0 A); congruence.
+Qed.
+
+Lemma ri_do_hello h c cn hl cn0 :
+  RI h -> WF h -> aget (h_conns h) c = Some cn0 -> c_sess cn0 = None -> RI (fst (do_hello h c cn hl)).
+Proof.
+  intros I W Hc Hn. unfold do_hello.
+  assert (Hexp : forall hh, srel none1 h hh -> h_conns hh = h_conns h ->
+                  RI (set_conns hh (aset (h_conns hh) c (mkconn (c_addr cn) None true)))).
+  { intros hh R E. apply ri_srel0 with h; [|exact I]. eapply srel_trans; [exact R|].
+    apply srel_set_conn. rewrite E. intros cn1 H1. congruence. }
+  destruct hl as [b u rej|b u t|b tok f d|i].
+  - destruct (h_nb h <=? b); [apply Hexp; [apply srel_refl|reflexivity]|].
+    destruct rej; [apply Hexp; [apply srel_refl|reflexivity]|].
+    destruct (register h c cn b KClient u) as [h1 o1] eqn:Hr. cbn [fst]. rewrite (fst_eq _ _ _ Hr).
+    now apply ri_register with cn0.
+  - destruct (v2_check (h_nb h) b t); [now apply ri_register with cn0|apply Hexp; [apply srel_refl|reflexivity]].
+  - destruct (throttled h (c_addr cn) ACT_INTERNAL); [apply Hexp; [apply srel_refl|reflexivity]|].
+    destruct (negb (N.eqb tok 0)); [apply Hexp; [srel_ns|reflexivity]|].
+    destruct (h_nb h <=? b); [apply Hexp; [srel_ns|reflexivity]|]. now apply ri_register with cn0.
+  - destruct (throttled h (c_addr cn) ACT_RESUME); [exact I|].
+    destruct i as [n|n|k|n]; try (apply ri_srel0 with h; [srel_ns|exact I]).
+    destruct (get_sess h n) as [s|] eqn:Hs; [|exact I].
+    destruct (is_virtual (s_kind s)) eqn:Hv; [exact I|].
+    set (P := match s_conn s with
+              | Some c' => if N.eqb c' c then (h, [])
+                           else send_conn (match aget (h_conns h) c' with
+                                           | Some cn' => set_conns h (aset (h_conns h) c' (mkconn (c_addr cn') None (c_expect cn')))
+                                           | None => h end) c' (SBye B_session_resumed)
+              | None => (h, []) end).
+    assert (HP : h_sessions (fst P) = h_sessions h /\ h_vtable (fst P) = h_vtable h /\
+                 (forall x, s_conn s <> Some x -> aget (h_conns (fst P)) x = aget (h_conns h) x)).
+    { unfold P. destruct (s_conn s) as [c'|]; [|repeat split; reflexivity].
+      destruct (N.eqb c' c); [repeat split; reflexivity|].
+      destruct (aget (h_conns h) c') as [cn'|] eqn:Hc'.
+      - rewrite (send_bye_detached _ c' (mkconn (c_addr cn') None (c_expect cn')) B_session_resumed);
+          [|cbn [h_conns set_conns]; apply aget_aset_same|reflexivity].
+        split; [reflexivity|]. split; [reflexivity|]. intros x Hx. cbn [h_conns set_conns].
+        assert (x <> c') by congruence. rewrite aget_adel_other, aget_aset_other; auto.
+      - unfold send_conn. rewrite Hc'. repeat split; reflexivity. }
+    destruct P as [h1 outs1]. cbn [fst] in HP. destruct HP as (A & B & C). cbn [fst].
+    apply (ri_reattach h _ n s (sess_pending (sess_conn s (Some c)) []) c); auto.
+    + eapply conn_free; eauto. apply I.
+    + cbn [h_sessions set_conns set_clients set_expired put_sess set_sessions]. now rewrite A.
+    + exists (mkconn (c_addr cn) (Some n) false). split; [|reflexivity]. cbn [h_conns set_conns]. apply aget_aset_same.
+    + intros x Hx Hsx. cbn [h_conns set_conns set_clients set_expired put_sess set_sessions].
+      rewrite aget_aset_other by exact Hx. now apply C.
+Qed.
+
+(* ------------------------------------------------------------------ joining *)
+Lemma ri_join_room h c sid k rs perms su :
+  RI h -> (forall s0, get_sess h sid = Some s0 -> fst k = s_backend s0) -> RI (fst (join_room h c sid k rs perms su)).
+Proof.
+  intros I Hb. unfold join_room.
+  destruct (leave_room h sid true) as [h1 o1] eqn:Hl.
+  assert (S1 : stab h h1) by (rewrite (fst_eq _ _ _ Hl); apply stab_leave_room).
+  assert (I1 : RI h1) by (apply ri_srel0 with h; [now apply stab_srel|exact I]).
+  destruct (get_sess h1 sid) as [s|] eqn:Hs; [|exact I1].
+  assert (Hbs : fst k = s_backend s).
+  { destruct (sr_sess _ _ _ (stab_srel none1 h h1 S1) sid s Hs) as (s0 & Hs0 & _ & B0 & _). rewrite B0. now apply Hb. }
+  set (r := match room_of h1 k with Some x => x | None => empty_room end).
+  set (r' := mkroom (nadd sid (r_members r)) (r_incall r) (if N.eqb su 0 then r_sessdata r else aset (r_sessdata r) sid su) (r_transient r) (r_props r)).
+  set (s1 := upd_sess s (Some k) rs (s_conn s) (match perms with Some p => Some p | None => s_perms s end) (s_pending s) [] (h_clock h1)).
+  set (hA := put_sess (set_rooms h1 (pset (h_rooms h1) k r')) sid s1).
+  assert (IA : RI hA).
+  { unfold hA. apply ri_put with s; auto.
+    - apply (ri_ext _ h1); auto.
+    - intros k0 E. cbn in E. injection E as <-. exact Hbs. }
+  assert (Hfin : forall hh, srel none1 hA hh -> RI hh) by (intros hh R; now apply ri_srel0 with hA).
+  set (h2 := set_clock hA (h_clock h1 + 1)).
+  set (h3 := if N.eqb rs 0 then h2 else rs_set h2 sid rs).
+  assert (R3 : srel none1 hA h3).
+  { unfold h3. destruct (N.eqb rs 0); [srel_ns|]. apply srel_trans with h2; [srel_ns|apply stab_srel, stab_rs_set]. }
+  set (h4 := set_anonymous h3 (nrem sid (h_anonymous h3))).
+  set (h5 := match s_kind s with KInternal _ true => set_dialout h4 (nrem sid (h_dialout h4)) | _ => h4 end).
+  assert (R5 : srel none1 hA h5).
+  { unfold h5. destruct (s_kind s) as [|f d|]; try (eapply srel_trans; [exact R3|srel_ns]).
+    destruct d; (eapply srel_trans; [exact R3|srel_ns]). }
+  destruct (send_session h5 sid (SRoom (snd k))) as [h7 o2] eqn:Hsend. pose proof (fst_eq _ _ _ Hsend) as E7.
+  assert (R7 : srel none1 hA h7) by (eapply srel_trans; [exact R5|rewrite E7; apply srel_send_session]).
+  destruct (room_of h7 k); [|cbn [fst]; now apply Hfin].
+  set (h9 := if nmem sid (r_members r) then h7 else publish h7 (SubjRoom (fst k) (snd k)) (ARoomEvent (SJoin [(sid, if N.eqb (s_user s) 0 then su else s_user s)]))).
+  assert (R9 : srel none1 hA h9).
+  { unfold h9. destruct (nmem sid (r_members r)); [exact R7|]. eapply srel_trans; [exact R7|srel_ns]. }
+  match goal with |- context [let '(h10, outs3) := ?X in _] => destruct X as [h10 o3] eqn:H10 end.
+  assert (R10 : srel none1 hA h10).
+  { destruct (nmem sid (r_members r)); [injection H10 as <- <-; exact R9|].
+    destruct (r_transient r); [injection H10 as <- <-; exact R9|].
+    rewrite (fst_eq _ _ _ H10). eapply srel_trans; [exact R9|apply srel_send_session]. }
+  cbn [fst]. apply Hfin. eapply srel_trans; [exact R10|srel_ns].
+Qed.
+
+Lemma ri_do_join h c sid s rn rs rep :
+  RI h -> get_sess h sid = Some s -> RI (fst (do_join h c sid s rn rs rep)).
+Proof.
+  intros I Hs. assert (Hfin : forall hh, srel none1 h hh -> RI hh) by (intros hh R; now apply ri_srel0 with h).
+  unfold do_join. destruct (N.eqb rn 0).
+  - destruct (s_room s); [|exact I].
+    destruct (leave_room h sid true) as [h1 o1] eqn:Hl.
+    destruct (send_session h1 sid (SRoom 0)) as [h2 o2] eqn:H2. cbn [fst].
+    assert (R1 : srel none1 h h1) by (rewrite (fst_eq _ _ _ Hl); apply stab_srel, stab_leave_room).
+    assert (R2 : srel none1 h h2) by (eapply srel_trans; [exact R1|]; rewrite (fst_eq _ _ _ H2); apply srel_send_session).
+    destruct (N.eqb (s_user s) 0 && negb (is_internal (s_kind s))); [|now apply Hfin]. apply Hfin. eapply srel_trans; [exact R2|srel_ns].
+  - set (k := (s_backend s, rn)). set (rsv := if N.eqb rs 0 then 0 else 1000000 + rs).
+    destruct (match room_of h k with Some r => nmem sid (r_members r) | None => false end).
+    + set (newrs := if N.eqb rs 0 then 2000000 + sid else rsv).
+      set (h1 := if N.eqb (s_rs s) newrs then h else put_sess (rs_set h sid newrs) sid (sess_rs s newrs)).
+      assert (R1 : srel none1 h h1).
+      { unfold h1. destruct (N.eqb (s_rs s) newrs); [apply srel_refl|]. apply stab_srel.
+        eapply stab_trans; [apply stab_rs_set|]. apply stab_put with s; auto.
+        unfold get_sess. rewrite rs_set_sessions. exact Hs. }
+      destruct (send_session h1 sid (SError E_already_joined)) as [h2 o2] eqn:H2. cbn [fst].
+      rewrite (fst_eq _ _ _ H2). apply Hfin. eapply srel_trans; [exact R1|apply srel_send_session].
+    + destruct (is_internal (s_kind s)).
+      { apply ri_join_room; [exact I|]. intros s0 H0. rewrite Hs in H0. injection H0 as <-. reflexivity. }
+      match goal with |- context [let '(h1, outs1) := ?X in _] => destruct X as [h1 o1] eqn:H1 end.
+      assert (R1 : srel none1 h h1).
+      { destruct (N.eqb rs 0 || N.eqb (s_rs s) rsv); [injection H1 as <- <-; apply srel_refl|].
+        rewrite (fst_eq _ _ _ H1). apply srel_kick. }
+      destruct (get_sess h1 sid) as [s1|] eqn:Hs1; [|cbn [fst]; now apply Hfin].
+      destruct rep as [perms su|code].
+      * destruct (join_room h1 c sid k rsv perms su) as [h2 o2] eqn:H2. cbn [fst]. rewrite (fst_eq _ _ _ H2).
+        apply ri_join_room; [now apply Hfin|]. intros s0 H0. rewrite Hs1 in H0. injection H0 as <-.
+        destruct (sr_sess _ _ _ R1 sid s1 Hs1) as (s' & Hs' & _ & B' & _). rewrite Hs in Hs'. injection Hs' as <-.
+        rewrite B'. reflexivity.
+      * destruct (send_session h1 sid (SError code)) as [h2 o2] eqn:H2. cbn [fst]. rewrite (fst_eq _ _ _ H2).
+        apply Hfin. eapply srel_trans; [exact R1|apply srel_send_session].
+Qed.
